@@ -349,6 +349,16 @@ def check_reply_eval(ctx, P):
             for what, kp, allowed in need:
                 ok, w = M.all_disj(S, kp, allowed)
                 ctx.ob("e.reply", "successor|" + what, ok, "a polled station becomes the successor without the guard `%s`: %s" % (what, w), f.loc(b))
+            # ... and the other inclusion: *both* kinds of ready master become the successor (a station that was dropped from this
+            # station's ring view while it stayed online answers `master in ring`; ignoring that reply excludes it for ever)
+            seen = set()
+            for fs in S:
+                for k, vs in fs.items():
+                    if need[5][1](k) and vs[0] == "in":
+                        seen |= set(vs[1])
+            ctx.ob("e.reply", "successor|both-ready-states", seen >= {"MasterWithoutToken", "MasterInRing"},
+                   "a polled station that reports %s with status Ok does not become the successor: a live master that was dropped from the ring "
+                   "view is never re-admitted" % sorted({"MasterWithoutToken", "MasterInRing"} - seen), f.loc(b))
     ctx.anchor("set_next_station call sites", n, 1)
 
 
